@@ -28,11 +28,13 @@ def build_cases(ck: core.Check, rnd: random.Random):
     for it in g["items1"]:
         add({"src": "items", "items": [it]}, pipe_render.render_module({"items": [it]}))
     rnd.shuffle(items2)
-    n2 = 500 if ck.quick else len(items2)
+    items2.sort(key=lambda it: 0 if pipe_check.must_include(it) else 1)  # stable: the interacting slots first
+    n_must = sum(1 for it in items2 if pipe_check.must_include(it))
+    n2 = (n_must + 200) if ck.quick else min(len(items2), n_must + 9000)
     for it in items2[:n2]:
         add({"src": "items", "items": [it]}, pipe_render.render_module({"items": [it]}))
     # two deviating items per module (pairs of one-slot deviations), seeded sample
-    n_pairs = 300 if ck.quick else 2500
+    n_pairs = 200 if ck.quick else 1500
     for _ in range(n_pairs):
         a, b = rnd.choice(g["items1"]), rnd.choice(g["items1"])
         add({"src": "items", "items": [a, b]}, pipe_render.render_module({"items": [a, b]}))
@@ -42,7 +44,7 @@ def build_cases(ck: core.Check, rnd: random.Random):
     short = [s for s in seqs if len(s) <= 2]
     long3 = [s for s in seqs if len(s) == 3]
     rnd.shuffle(long3)
-    n3 = 300 if ck.quick else 8000
+    n3 = 200 if ck.quick else 5000
     n_regex = 0
     for s in short + long3[:n3]:
         body = pipe_render.pattern_of(g["tokens"], s)
@@ -53,7 +55,7 @@ def build_cases(ck: core.Check, rnd: random.Random):
             add({"src": "regex", "seq": s, "pattern": pat}, pipe_render.render_module({"items": [it]}))
             n_regex += 1
     # code -> spec
-    corpus = pipe_check.corpus_texts(rnd, n_lines=300 if ck.quick else 2443, n_bytes=100 if ck.quick else 1000, n_big=0 if ck.quick else 40, whole=True)
+    corpus = pipe_check.corpus_texts(rnd, n_lines=220 if ck.quick else 2443, n_bytes=60 if ck.quick else 1000, n_big=0 if ck.quick else 40, whole=True)
     for desc, text in corpus:
         add(desc, text)
     counts = {"templates": len(g["templates"]) + 1, "items_dev1": len(g["items1"]), "items_dev2": min(n2, len(items2)), "item_pairs": n_pairs, "regex": n_regex, "corpus": len(corpus), "items_dev2_enumerated": len(items2), "token_seqs_enumerated": len(seqs)}
